@@ -984,8 +984,21 @@ def eval_go(ctx, c, outs):
                             cur = now
                             stop_model = True
         raised.append(None if r is None else err_cat(r))
+        vio = []
+        if r is None and (oi + len(c['ops'])) % 2 == 0 and cur:
+            # the FIRST thing asked of the index after it grew is the position of its newest label (no len / values /
+            # iteration before it: those rebuild what the growth call left pending)
+            newest = untok(op[1]) if op[0] == 'ap' else (ic.values(op[1])[-1] if op[1] else None)
+            if newest is not None and H(newest) == cur[-1]:
+                ctx.count('go_lookup_straight_after_growth')
+                try:
+                    p0 = ix.loc_to_iloc(newest)
+                    if not isinstance(p0, (int, np.integer)) or int(p0) != len(cur) - 1:
+                        vio.append(f'straight after op {oi} {op}: loc_to_iloc({newest!r}) = {p0!r}, label is at position {len(cur) - 1}')
+                except Exception as ex:
+                    vio.append(f'straight after op {oi} {op}: loc_to_iloc({newest!r}) raised {type(ex).__name__}: {ex}')
         # the index must be a bijection on exactly the accepted labels after every call
-        vio = check_bijection(ix, absent=['zz', 99], expect=cur, what=f'after op {oi} {op}')
+        vio += check_bijection(ix, absent=['zz', 99], expect=cur, what=f'after op {oi} {op}')
         for v in vio:
             fails.append(Failure('oracle', v, c, detail={'op': oi}))
         if vio:
